@@ -856,6 +856,16 @@ class Evaluator:
             raise Undecided(f'{names[1]} on {b.cls.name}')
         if isinstance(a, Inst):
             raise Undecided(f'{names[0]} on {a.cls.name}')
+        if isinstance(op, ast.Mult) and not inplace:
+            # sequence repetition / concatenation on known items
+            for seq, k_ in ((a, b), (b, a)):
+                if isinstance(seq, (Lst, Tup)) and self.is_concrete_number(k_):
+                    its_ = self.items(st, seq) or []
+                    out_ = list(its_) * max(0, int(self.scalar(k_).const_value()))
+                    return self.new_list(st, out_) if isinstance(seq, Lst) else Tup(out_)
+        if isinstance(op, ast.Add) and not inplace and isinstance(a, (Lst, Tup)) and type(a) is type(b):
+            out_ = list(self.items(st, a) or []) + list(self.items(st, b) or [])
+            return self.new_list(st, out_) if isinstance(a, Lst) else Tup(out_)
         if isinstance(a, EnumVal) and isinstance(op, ast.LShift):
             raise Undecided('enum << x')
         if isinstance(op, ast.RShift) and isinstance(a, SymObj) and isinstance(b, (EnumVal, SymObj)):
@@ -1551,6 +1561,15 @@ class Evaluator:
         if mod == 'math' or (mod == 'builtins' and name in ('abs', 'min', 'max', 'float', 'int', 'round')):
             extra = [kwargs[k] for k in sorted(kwargs)] if name == 'round' else []
             return self.lift(lambda *xs: self.math_call(mod, name, list(xs), st, ctx), *(list(args) + extra))
+        if mod == 'bisect' and name in ('bisect_left', 'bisect_right', 'bisect') and 2 <= len(args) <= 4 and not kwargs \
+                and not isinstance(args[0], Cond):
+            its = self.items(st, args[0])
+            if its is not None and all(self.is_concrete_number(x_) for x_ in list(its) + list(args[1:])):
+                import bisect as _bs
+                keys = [self.scalar(x_).const_value() for x_ in its]
+                extra = [int(self.scalar(a_).const_value()) for a_ in args[2:]]
+                f_ = _bs.bisect_left if name == 'bisect_left' else _bs.bisect_right
+                return Scalar(f_(keys, self.scalar(args[1]).const_value(), *extra))
         if mod == 'itertools' and name == 'islice' and 2 <= len(args) <= 4 and not kwargs and not isinstance(args[0], Cond):
             its = self.items(st, args[0])
             bounds = [None if (isinstance(a_, Const) and a_.value is None) else
@@ -1617,8 +1636,8 @@ class Evaluator:
                 return self.lift(b, args[0])
             if name == 'sorted' and len(args) == 1 and not isinstance(args[0], Cond):
                 its = self.items(st, args[0])
-                if its is not None and len(its) > 1:
-                    return self.new_list(st, self.sort_items(its, kwargs, st, ctx))
+                if its is not None:
+                    return self.new_list(st, self.sort_items(its, kwargs, st, ctx) if len(its) > 1 else list(its))
             if name in ('all', 'any') and len(args) == 1 and not kwargs and not isinstance(args[0], Cond):
                 its = self.items(st, args[0])
                 if its is not None:
